@@ -105,4 +105,47 @@ theorem exit_inner (env : Env) (o : Opts) (exc : Option Exc) (s : St) (h : 1 < s
   have : s.counter - 1 ≠ 0 := by omega
   simp [exit, this]
 
+/-- the state in which the body of an outermost session `o` starts -/
+def entered (o : Opts) (s : St) : St := { s with session := some o.sess, counter := 1 }
+
+theorem entered_Entered (o : Opts) (s : St) : Entered o (entered o s) := ⟨rfl, rfl⟩
+
+theorem Preserves.entered {o : Opts} {s s' : St} (h : Entered o s) (hp : Preserves s s') : Entered o s' :=
+  ⟨hp.counter.trans h.1, hp.session.trans h.2⟩
+
+/-- the outermost `__exit__` after a body that respected `Preserves`: everything about the result -/
+theorem exit_top (env : Env) (o : Opts) (exc : Option Exc) (s1 b : St) (he : Entered o s1) (hs : s1.pending = [])
+    (hp : Preserves s1 b) :
+    Clean (exit env o exc b).1 ∧
+    (exit env o exc b).1.committed =
+      s1.committed ++ (if wantsCommit o exc && commitOK env s1.ncommit b.pending then b.pending else []) ∧
+    (exit env o exc b).1.trace = b.trace ∧
+    (exit env o exc b).2 = corErr env o exc s1.ncommit b.pending := by
+  rw [exit_entered env o exc b (hp.entered he)]
+  have h := cor_spec env o exc { b with counter := 0 }
+  rw [h.1, h.2]
+  simp [Clean, hp.committed, hp.ncommit]
+
+theorem cm_top (env : Env) (o : Opts) (run : St → St × Outcome) (s : St) (hc : Clean s) (hr : InnerOK run)
+    (h0 : o.retry = 0) :
+    let b := run (entered o s)
+    Clean (cm env o run s).1 ∧
+    (cm env o run s).1.committed =
+      s.committed ++ (if wantsCommit o b.2.exc? && commitOK env s.ncommit b.1.pending then b.1.pending else []) ∧
+    (cm env o run s).1.trace = b.1.trace ∧
+    (cm env o run s).2 = (match corErr env o b.2.exc? s.ncommit b.1.pending with
+                           | some e' => .raise e'
+                           | none => b.2) := by
+  intro b
+  have hp : Preserves (entered o s) b.1 := hr (entered o s) (by simp [entered]) (by simp [entered])
+  have hx := exit_top env o b.2.exc? (entered o s) b.1 (entered_Entered o s) (by simpa [entered] using hc.2.2) hp
+  have hcm : cm env o run s = ((exit env o b.2.exc? b.1).1,
+      match (exit env o b.2.exc? b.1).2 with | some e' => .raise e' | none => b.2) := by
+    simp only [cm, h0, enter_clean o s hc]
+    rfl
+  rw [hcm]
+  refine ⟨hx.1, ?_, hx.2.2.1, ?_⟩
+  · simpa [entered] using hx.2.1
+  · simp only [hx.2.2.2]; rfl
+
 end PonyVerif.Model.DbSession
